@@ -109,6 +109,29 @@ let predict (c : string) (obs : string) : string * string * bool =
         | _ -> "BAD:unparsable-observation" in
       let nontrivial = n >= 2 && min tokens an >= 2 in
       (pred, v, nontrivial)
+  | ["burst"; per; t; a; _n; _spec] ->
+      (* no log: the totals C03_conservation / C03_counters / C03_unfired determine *)
+      let per = bool_of_field per and tn = int_of_string t and an = int_of_string a in
+      (match split_blank obs with
+       | [outcome; started; total; dreq; dresp; dacq; unf; dfin] ->
+           let started = int_of_string started in
+           let tokens = if per then started * tn else tn in
+           let want = min tokens an in
+           let pred = Printf.sprintf "ok %d %d 0 0 0 1 0" started (if started = 0 then 0 else want) in
+           let v =
+             if outcome <> "ok" then "BAD:run-outcome-" ^ outcome
+             else if started = 0 then "ok"
+             else if int_of_string total <> want then
+               Printf.sprintf "BAD:conservation fired+discarded=%s min(tokens=%d,ammo=%d)" total tokens an
+             else if dreq <> "0" || dresp <> "0" then
+               Printf.sprintf "BAD:request-response-counters (Request-fired=%s Response-fired=%s)" dreq dresp
+             else if dacq <> "0" then "BAD:acquired<>released"
+             else if unf <> "1" then (if per then "BAD:unfired-with-per-instance-profiles" else "BAD:unfired-bound")
+             else if dfin <> "0" then "BAD:instance-start-finish-counters"
+             else "ok" in
+           (pred, v, started >= 2 && want >= 2)
+       | [o] -> ("?", "BAD:run-outcome-" ^ o, false)
+       | _ -> ("?", "BAD:unparsable-observation", false))
   | _ -> ("unknown-case", "BAD:unknown-case", false)
 
 let () = run_cases predict
